@@ -166,6 +166,7 @@ func checkC13(c *Ctx, r *Report) {
 	r.Undecidedcl = []string{"exactly-once landing under concurrent writers and interval boundaries (schedule property)", "a write after a boundary goes to the new file (needs clock values)"}
 	r.Assumptions = []string{"O_APPEND semantics of the OS", "time.Time.Format/Truncate contracts"}
 	ro := c.roles(r)
+	fileAppenderDecisions(r, c.checkFileAppenderSemantics(r, ro, "C13.file-values"))
 	checkOpenFlags(c, r, "C13.flags")
 	rt := rollingType(ro)
 	if rt == nil || ro.Rotation == nil {
@@ -758,6 +759,7 @@ func checkC14(c *Ctx, r *Report) {
 	r.Undecidedcl = []string{"directory populations and modification times are runtime data; only the guards dominating the removal are decided"}
 	r.Assumptions = []string{"time.Parse(layout, s) succeeds only for strings in the layout's format", "os.DirEntry contract"}
 	ro := c.roles(r)
+	fileAppenderDecisions(r, c.checkFileAppenderSemantics(r, ro, "C14.file-values"))
 	sites := c.destructiveSites()
 	if ro.Retention == nil {
 		r.Undecided("C14.anchor:retention", "", "no function calling os.Remove found")
@@ -1231,6 +1233,7 @@ func checkC20(c *Ctx, r *Report) {
 	r.Undecidedcl = []string{"durability after write(2) returns is an OS property"}
 	r.Assumptions = []string{"(*os.File).Write issues write(2) before returning and does not buffer"}
 	ro := c.roles(r)
+	fileAppenderDecisions(r, c.checkFileAppenderSemantics(r, ro, "C20.file-values"))
 	r.Floor("leaf appenders", len(ro.LeafAppenders), 4)
 	r.Floor("logger implementations", len(ro.Loggers), 6)
 
@@ -1592,6 +1595,7 @@ func checkC19(c *Ctx, r *Report) {
 	r.Undecidedcl = []string{"placement of directory outages relative to interval boundaries and concurrent writes (fault-sequence property)"}
 	r.Assumptions = []string{"(*os.File)(nil).Write returns os.ErrInvalid instead of panicking (stdlib contract)"}
 	ro := c.roles(r)
+	fileAppenderDecisions(r, c.checkFileAppenderSemantics(r, ro, "C19.file-values"))
 	if ro.Rotation == nil {
 		r.Undecided("C19.anchor:rotation-step", "", "no rotation step found")
 		return
